@@ -46,12 +46,16 @@ def check(pid, tier, replay=None):
                      # rating connection; the account peer closing every second connection right after the exchange
                      dict(id="C18-g", n=4, subs=2, finalAt=0, peerFault="slowcea"), dict(id="C18-h", n=12, subs=6, finalAt=0, peerFault="dropaftercea"),
                      # every update by a subscriber the CHF has not seen before (what a subscriber context keeps alive counts)
-                     dict(id="C18-i", n=40, subs=1, finalAt=0, newSubs=True)]
+                     dict(id="C18-i", n=40, subs=1, finalAt=0, newSubs=True),
+                     # reports of varying size (below, equal to and beyond the grant; nothing), every second one final: the
+                     # settlement paths (refund, termination debit) next to the reserving one
+                     dict(id="C18-j", n=48, subs=2, finalAt=2, used=[10, 5, 12, 0, 10])]
         else:
             cases = [dict(id="C18-a", n=10, subs=1, finalAt=0), dict(id="C18-b", n=100, subs=1, finalAt=4), dict(id="C18-c", n=1000, subs=3, finalAt=5),
                      dict(id="C18-d", n=1000, subs=1, finalAt=0), dict(id="C18-e", n=300, subs=8, finalAt=3), dict(id="C18-f", n=6, subs=6, finalAt=0, noAcct=True),
                      dict(id="C18-g", n=12, subs=3, finalAt=0, peerFault="slowcea"), dict(id="C18-h", n=60, subs=6, finalAt=0, peerFault="dropaftercea"),
-                     dict(id="C18-i", n=400, subs=1, finalAt=0, newSubs=True)]
+                     dict(id="C18-i", n=400, subs=1, finalAt=0, newSubs=True),
+                     dict(id="C18-j", n=600, subs=2, finalAt=2, used=[10, 5, 12, 0, 10]), dict(id="C18-k", n=300, subs=3, finalAt=3, used=[10, 11])]
         mode, chunk, nw = "leak", 1, 6
     if replay:
         with open(replay) as f:
@@ -62,10 +66,11 @@ def check(pid, tier, replay=None):
     trace, nlines = pipe.run_harness(sc, vfh, mode, cases, chunk=chunk, nworkers=nw, timeout=3000)
     res = pipe.judge(sc, "DiamLinkTrace", {"ConnBound": "2", "TaskBound": "8"}, trace, nlines)
     bymap = {c["id"]: c for c in cases}
-    for x in res["viol"]:
-        if x["clause"] == "harness_updates_failed":
-            raise core.MachineryError("C18 driver: updates against the real servers failed: %s" % x)
     mine = [x for x in res["viol"] if (x["prop"], x["clause"]) in CL[pid]]
+    for x in res["viol"]:
+        # (updates that failed AND left connections / tasks behind are reported as what they are)
+        if x["clause"] == "harness_updates_failed" and not [y for y in mine if y["trace"] == x["trace"]]:
+            raise core.MachineryError("C18 driver: updates against the real servers failed: %s" % x)
     for x in sorted(mine, key=lambda x: (str(x["trace"]), x["step"])):
         v.add(x, dict(family="link", property=pid, behaviour=bymap.get(x["trace"]), violation=x, trace=pipe.trace_lines(trace, x["trace"])))
     cov = dict(states=max(mc["distinct"], 1), transitions=max(mc["generated"], 1), traces_validated_against_impl=len(cases),
